@@ -901,7 +901,7 @@ def c02_generated(run):
     from statham.schema.parser import parse
     from statham.schema.elements.meta import ObjectMeta
     from statham.serializers.orderer import get_object_classes
-    acc = Acc(run, "C02-generated", f"{len(C02_ROOTS)} documents written to temp files (local and cross-file $ref, repeated titles, untitled nested objects, compositions, renamed properties) "
+    acc = Acc(run, "C02-generated", ("" if run.tier == "quick" else "every enumerator document under a root property and a nested titled object; ") + f"{len(C02_ROOTS)} documents written to temp files (local and cross-file $ref, repeated titles, untitled nested objects, compositions, renamed properties) "
               "through statham.__main__.main; module executed in an empty namespace; classes compared with parse(); verdicts compared with the Draft-6 oracle")
     tmp = tempfile.mkdtemp(prefix="pyvc_c02_")
     w = quiet()
@@ -909,7 +909,25 @@ def c02_generated(run):
         for name, doc in C02_DOCS.items():
             json.dump(doc, open(os.path.join(tmp, name), "w"))
         fm = registered_formats()
-        for name in C02_ROOTS:
+        roots = list(C02_ROOTS)
+        values_for_root = {}
+        if run.tier != "quick":
+            # thorough: every document of the schema enumerator placed under a property of a titled root object and of a
+            # titled nested object (so that the sub-schema goes through the generator in both positions)
+            for i, D in enumerate(schemas.quick()):
+                if not isinstance(D, dict):
+                    continue
+                name = f"gen{i}.json"
+                doc = {"type": "object", "title": "GenRoot", "properties": {
+                    "p": copy.deepcopy(D), "q": {"type": "object", "title": "GenSub", "properties": {"r": copy.deepcopy(D)}}}}
+                try:
+                    json.dump(doc, open(os.path.join(tmp, name), "w"))
+                except (TypeError, ValueError):
+                    continue
+                roots.append(name)
+                vs = gen.values_quick()[::4]
+                values_for_root[name] = [{}] + [{"p": v} for v in vs] + [{"q": {"r": v}} for v in vs[::2]]
+        for name in roots:
             acc.case(name)
             try:
                 src = main(os.path.join(tmp, name) + "#/")
@@ -952,7 +970,7 @@ def c02_generated(run):
             root = parsed[0]
             groot = ns.get(getattr(root, "__name__", "")) if isinstance(root, ObjectMeta) else None
             raw = json.load(open(os.path.join(tmp, name)))
-            for v in C02_VALUES:
+            for v in values_for_root.get(name, C02_VALUES):
                 key = f"{name} <- {jkey(v)}"
                 k1, r1 = outcome(root, copy.deepcopy(v))
                 acc.case(key, nontrivial=(k1 == "ok"))
